@@ -31,6 +31,10 @@ ASSUMPTIONS = ["pointer strings and member names are C strings (no 0 byte); the 
                "vasprintf produces the bytes the format denotes"]
 
 SLOT_LIMIT = 1 << 21          # harness/drv_ptr.c: PTR_ALLOC_LIMIT / sizeof(void *)
+# operation kinds (harness/drv_ptr.c): g = get, s = set; the others are getf / setf in five
+# format shapes ("%s" | pointer as format | "/%s" | "%s%s" | "%s/%d") with the same expansion
+GET_KINDS = "gGHIJD"
+SET_KINDS = "sSTUVE"
 
 # ------------------------------------------------------------------ RFC 6901, from the RFC
 # `defects` is empty for the oracle.  The four switches reproduce the deviations the original
@@ -194,7 +198,7 @@ def parse_line(line):
     out = []
     for o in ops.split(";"):
         k = o[0]
-        if k in "gGH":
+        if k in GET_KINDS:
             out.append((k, unhex(o[1:]), None))
         else:
             h, v = o[1:].split("=", 1)
@@ -205,7 +209,7 @@ def parse_line(line):
 def mk_line(tree, ops):
     parts = []
     for k, p, v in ops:
-        parts.append(k + hexs(p) if k in "gGH" else k + hexs(p) + "=" + jvtext.dump(v))
+        parts.append(k + hexs(p) if k in GET_KINDS else k + hexs(p) + "=" + jvtext.dump(v))
     return "ptr %s %s" % (jvtext.dump(tree), ";".join(parts))
 
 
@@ -254,10 +258,20 @@ def violations(line, impl):
         yield ("malformed", "unexpected driver output: " + impl[:120])
         return
     cur = tree
+    plain = {}          # (tree, pointer) -> outcome of json_pointer_get, to hold the f-variants against
     for n, ((k, p, v), (rc, err, ident, dump)) in enumerate(zip(ops, steps)):
         before = jvtext.dump(cur)
-        where = "op %d %s %r on %s" % (n, k, p, before[:80])
-        if k in "gGH":
+        where = "op %d %s %r (%d bytes) on %s" % (n, k, p[:60], len(p), before[:80])
+        if k in GET_KINDS:
+            mine = (rc, err, ident) if rc == 0 else (rc, err)
+            if k == "g":
+                plain[(before, p)] = mine
+            elif plain.get((before, p), mine) != mine:
+                # "the printf-style variants behave as the plain ones on the formatted string"
+                yield ("getf_not_as_plain", "json_pointer_getf (format shape %s) answers %s where json_pointer_get answered %s on the "
+                       "same tree and the same formatted pointer: %s" % (k, tuple(str(x)[:48] for x in mine), tuple(str(x)[:48] for x in plain[(before, p)]), where))
+                cur = cur if dump == before else jvtext.parse(dump)[0]
+                continue
             if dump != before:
                 yield ("get_side_effect", "lookup changed the tree: " + where)
             elif cur is None:
@@ -275,7 +289,7 @@ def violations(line, impl):
                     cls = classify_defect(lambda d: outcome(d) == got)
                     if cls is None:
                         cls = "get_wrong_success" if want == ("fail",) else ("get_wrong_failure" if got == ("fail",) else "get_wrong_node")
-                    yield (cls, "lookup: RFC 6901 says %s, implementation %s (%s): %s" % (want, got, err, where))
+                    yield (cls, "lookup: RFC 6901 says %s, implementation %s (%s): %s" % (tuple(x[:48] for x in want), tuple(x[:48] for x in got), err, where))
                 elif rc != 0 and err not in ("ENOENT", "EINVAL"):
                     yield ("get_errno", "failed lookup reports %s: %s" % (err, where))
         else:
@@ -351,6 +365,76 @@ def nontrivial(line, meta, impl):
     return tuple((k, s[1]) for k, s in zip(kinds, steps) if s is not None) or None
 
 
+# ------------------------------------------------------------------ pointer-length sweep
+def sweep_lengths(tier):
+    """formatted pointer lengths covered systematically on every run: every length up to 300
+    (any small fixed buffer in a formatting path lies there), and a window around every power
+    of two up to 8192 / 65536"""
+    ls = set(range(0, 301))
+    top = 13 if tier == "quick" else 16
+    for e in range(4, top + 1):
+        ls.update(range((1 << e) - 2, (1 << e) + 3))
+    return sorted(ls)
+
+
+def length_cases(tier):
+    """For a formatted pointer of exactly L bytes, in three shapes (one long member name; a long
+    name below an array element, addressed with "%s/%d"-able tokens around it; a deep chain of
+    one-byte names), every entry point (get, getf x 5 format shapes, set, setf x 5) is used.
+    The tree always holds the neighbours of the addressed name (one byte shorter / longer),
+    so a pointer that loses or gains a byte resolves to a different node instead of failing."""
+    out = []
+    for L in sweep_lengths(tier):
+        big = L > 600
+        # shape 1: "/" + name of L-1 bytes
+        if L >= 1:
+            n = L - 1
+            name = b"k" * n
+            members = [(name, ("i", L))]
+            if n >= 1:
+                members.append((name[:-1], ("i", -1)))
+            members.append((name + b"k", ("i", -2)))
+            tree = ("o", members)
+            p = b"/" + name
+            ops = [(k, p, None) for k in ("g", "G", "I", "H", "J")]
+            for k in (("S",) if big else ("S", "U", "T", "V", "s")):
+                ops.append((k, p, ("i", 100 + len(ops))))
+                ops.append(("G" if big else "gGIHJ"[len(ops) % 5], p, None))
+            if not big:
+                # a name one byte longer than any present: must be not-found, then created
+                q = b"/" + name + b"kk"
+                ops += [("g", q, None), ("I", q, None), ("U", q, ("i", 7)), ("G", q, None)]
+            out.append((mk_line(tree, ops), {"kind": "length-sweep"}))
+        # shape 2: "/a/<idx>/" + name, and "/" + name + "/<idx>" (the "%s/%d" shape), total L bytes
+        if 6 <= L and not big:
+            n = L - 5
+            name = b"q" * n
+            inner = ("o", [(name, ("i", L)), (name[:-1], ("i", -1)), (name + b"q", ("i", -2))])
+            tree = ("o", [(b"a", [None, inner])])
+            p = b"/a/1/" + name
+            ops = [(k, p, None) for k in ("g", "G", "I", "J", "H")]
+            ops += [("U", p, ("i", 5)), ("J", p, None)]
+            out.append((mk_line(tree, ops), {"kind": "length-sweep"}))
+            n2 = L - 3
+            name2 = b"z" * n2
+            tree2 = ("o", [(name2, [("i", 0), ("i", L)]), (name2[:-1], [("i", -1), ("i", -1)]), (name2 + b"z", [("i", -2), ("i", -2)])])
+            p2 = b"/" + name2 + b"/1"
+            ops2 = [(k, p2, None) for k in ("g", "D", "G", "I")]
+            ops2 += [("E", p2, ("i", 6)), ("D", p2, None), ("E", b"/" + name2 + b"/2", ("i", 8)), ("D", b"/" + name2 + b"/2", None)]
+            out.append((mk_line(tree2, ops2), {"kind": "length-sweep"}))
+        # shape 3: a chain of one-byte names, "/a/a/…" of L bytes (L even), up to 200 levels
+        if 2 <= L <= 400 and L % 2 == 0:
+            depth = L // 2
+            t = ("i", L)
+            for _ in range(depth):
+                t = ("o", [(b"a", t), (b"b", None)])
+            p = b"/a" * depth
+            ops = [(k, p, None) for k in ("g", "G", "I", "J")]
+            ops += [("V", p, ("i", 9)), ("H", p, None), ("g", p + b"/a", None), ("G", p[:-1] + b"b", None)]
+            out.append((mk_line(t, ops), {"kind": "length-sweep"}))
+    return out
+
+
 # ------------------------------------------------------------------ generator
 ADV_KEYS = [b"", b"a", b"b", b"/", b"~", b"~0", b"~1", b"~01", b"~10", b"~2", b"~~", b"a/b", b"m~n", b"x~1y", b"x/y", b"~/",
             b"0", b"1", b"2", b"01", b"00", b"-", b"10", b"+1", b" ", b"%s", b"a%d", b"%", b"//", b"a/", b"/a", b"~0~1", b"~1~0",
@@ -388,7 +472,16 @@ def gen_ptr_tree(rng, depth, width):
     if r < 0.60:
         ms, seen = [], set()
         for _ in range(n):
-            k = rng.choice(ADV_KEYS) if rng.random() < 0.85 else bytes(rng.choice(b"ab/~01-") for _ in range(rng.randint(0, 4)))
+            rr = rng.random()
+            if rr < 0.82:
+                k = rng.choice(ADV_KEYS)
+            elif rr < 0.87:
+                # a long name: the escaped token / the pointer crosses a power-of-two length
+                ln = max(1, rng.choice(LONG_EDGES) + rng.choice([-2, -1, 0, 0, 1]))
+                unit = rng.choice([b"k", b"k", b"~", b"/", b"k~/", b"%s", b"0"])
+                k = (unit * ln)[:ln]
+            else:
+                k = bytes(rng.choice(b"ab/~01-") for _ in range(rng.randint(0, 4)))
             if k in seen:
                 continue
             seen.add(k)
@@ -500,9 +593,13 @@ WITNESSES = [
 ]
 
 
+LONG_EDGES = [15, 16, 17, 31, 32, 63, 64, 65, 126, 127, 128, 129, 255, 256, 257, 511, 512, 513, 1023, 1024, 1025]
+
+
 def gen(rng, tier):
-    n = 6000 if tier == "quick" else 120000
+    n = 5000 if tier == "quick" else 120000
     out = [(mk_line(t, ops), {"kind": "witness"}) for t, ops in WITNESSES]
+    out += length_cases(tier)
     for ci in range(n):
         r = rng.random()
         if r < 0.04:
@@ -519,16 +616,16 @@ def gen(rng, tier):
             toks, node = rng.choice(locs)
             good = rng.random() < 0.55
             p = b"".join(b"/" + x for x in toks) if good else damage(rng, cur, toks)
-            if len(p) > 300:
-                p = p[:300]
+            if len(p) > 20000:
+                p = p[:20000]
             if b"\0" in p:
                 p = p.replace(b"\0", b"a")
             if rng.random() < 0.55:
-                k = rng.choice("gggGH")
+                k = rng.choice("gggGHIJD")
                 ops.append((k, p, None))
                 kinds.add("get-valid" if good else "get-damaged")
             else:
-                k = rng.choice("sssST")
+                k = rng.choice("sssSTUVE")
                 v = gen_value(rng)
                 sp = p
                 if good and rng.random() < 0.5:
@@ -540,7 +637,7 @@ def gen(rng, tier):
                 ops.append((k, sp, v))
                 kinds.add("set-valid" if good else "set-damaged")
                 if rng.random() < 0.7:
-                    ops.append((rng.choice("ggGH"), sp, None))     # a following lookup of the same pointer
+                    ops.append((rng.choice("ggGHIJD"), sp, None))     # a following lookup of the same pointer
                 # continue on the tree the RFC placement gives (only to aim later pointers)
                 nxt = rfc_set(cur, sp, v)
                 if nxt is not FAIL and nxt is not HUGE:
